@@ -15,7 +15,7 @@ def run_config(chk, tier, cfgname):
                         "traces + the global theorem)"]
     for t in ("gc_is_dead", "weak_is_dead", "resurrect", "weak_resurrect", "gray_remaining"):
         typestate.apply(chk, t + "-table", t, aspects=("safety",))
-    common.protocol_rows(chk, prog, "marked-arena-protocol", ["mark_debt", "finish_marking", "start_sweeping"])
+    common.protocol_rows(chk, prog, "marked-arena-protocol", ["mark_debt", "finish_marking", "start_sweeping"], aspects=("handout",))
     prog.edges()
     # Finalization only for MarkedArena holders
     for f in c03.entry_points(prog):
